@@ -94,16 +94,21 @@ pub fn parse_response(b: &[u8]) -> Result<Resp, String> {
     // Octets after the last counted record are NOT judged here: a size-limited (TC=1) encoding that
     // leaves part of a dropped record behind is C03's subject, not C11's.  They are counted.
     r.trailing = b.len() - off;
-    let tail = &b[after_question..];
-    let mut i = 0;
-    while i + 6 <= tail.len() {
-        if &tail[i..i + 3] == b"zmk" && tail[i + 3..i + 6].iter().all(|c| c.is_ascii_digit()) {
-            let m = (tail[i + 3] - b'0') as u16 * 100 + (tail[i + 4] - b'0') as u16 * 10 + (tail[i + 5] - b'0') as u16;
-            if !r.markers.contains(&m) {
-                r.markers.push(m);
+    // Markers live in RDATA only (SOA MNAME/RNAME, NS target, TXT). Owner names are not scanned: they
+    // echo the (random) query name, lower-cased by the server, which can spell `zmkNNN` by chance.
+    let _ = after_question;
+    for &(_, _, _, _, rd, rdlen) in &r.records {
+        let tail = &b[rd..rd + rdlen];
+        let mut i = 0;
+        while i + 6 <= tail.len() {
+            if &tail[i..i + 3] == b"zmk" && tail[i + 3..i + 6].iter().all(|c| c.is_ascii_digit()) {
+                let m = (tail[i + 3] - b'0') as u16 * 100 + (tail[i + 4] - b'0') as u16 * 10 + (tail[i + 5] - b'0') as u16;
+                if !r.markers.contains(&m) {
+                    r.markers.push(m);
+                }
             }
+            i += 1;
         }
-        i += 1;
     }
     Ok(r)
 }
